@@ -28,3 +28,7 @@ def build(u):
     build_functions(u)
     u.contracts_header = os.path.join(VERIF, 'contracts', 'posix.h')
     u.harness_files = [os.path.join(VERIF, 'harness', 'posix.c')]
+    import posix_loops
+    u.loop_contracts.update(posix_loops.LOOPS)
+    u.pre_loop.update(posix_loops.GHOST)
+    u.stmt_hooks.update(posix_loops.HOOKS)
